@@ -1437,6 +1437,19 @@ def struct_dispatch_rule(syn, prop, rule="C01.R6"):
     r.inst(shape="empty enum", literal=found, expected="never", ok=found == "never")
     if found != "never":
         r.fail(prop, "empty-shape-literal empty_enum", "an enum without variants declares %r, expected `never`" % found, ee["file"] if ee else None, ee["line"] if ee else None)
+    # a skipped single field: serde_derive treats a newtype *variant* with a skipped field as a unit variant, but for a newtype
+    # *struct* it ignores `skip` altogether (ser.rs::serialize_newtype_struct never looks at it): `struct N(#[serde(skip)] i32)`
+    # serialises as the inner value.  newtype() is shared by both routes.
+    nf = syn.fn("types::newtype::newtype", "types/newtype.rs")
+    sd = syn.fn("types::struct_def", "types/mod.rs")
+    skip_null = [e for e in (S.events(nf, "call") if nf else []) if S.squash(e["func"]).endswith("unit::null")
+                 and any(c["k"] == "if" and S.squash(c["cond"]) == "field_attr.skip" and c.get("branch", "then") == "then" for c in e["ctx"])]
+    struct_route = bool(sd) and any(S.squash(e["func"]) == "type_def" for e in S.events(sd, "call")) and got.get(("Unnamed", "1", None)) == "newtype::newtype"
+    r.inst(shape="newtype struct with skipped field", declares_null=bool(skip_null), reached_from_struct_def=struct_route, serde="the inner value (skip is ignored on newtype structs)")
+    if skip_null and struct_route:
+        r.fail(prop, "newtype-struct-skip-null types::newtype::newtype",
+               "newtype() declares `null` for a skipped field also when it formats a newtype *struct*: `struct N(#[serde(skip)] i32)` is declared `null`, serde_json::to_string(&N(1)) is `1`",
+               nf["file"], skip_null[0]["line"])
     # tuple and newtype shapes
     tf = syn.fn("types::tuple::tuple", "types/tuple.rs")
     ok = False
